@@ -13,7 +13,10 @@ def units(tier):
 
 
 def bounded(tier, seed):
-    return []
+    from vf.bounded import Bounded
+    from rc import p_C12
+    n = 12
+    return [Bounded("C12/native-grids-and-histories[%d/%d]" % (i, n), p_C12.run, tier=tier, seed=seed, chunk=i, nchunks=n) for i in range(n)]
 
 MANIFEST = dict(
     category="proof",
